@@ -188,8 +188,9 @@ TEMPLATES = {
     "types::Hash::hmac": [
         ("init", V("ipad"), ("repeat", 0x36, 128), {}),
         ("init", V("opad"), ("repeat", 0x5C, 128), {}),
-        ("elem", V("ipad"), (V("i"), ("BitXor", ("elem", loc("ipad")), ("elem", at("p2")))), {}),
-        ("elem", V("opad"), (V("i"), ("BitXor", ("elem", loc("opad")), ("elem", at("p2")))), {}),
+        # every key byte, each exactly once: i ranges over 0..len(key)
+        ("elem", V("ipad"), (("range", 0, ("len", P2)), ("BitXor", ("elem", loc("ipad")), ("elem", at("p2")))), {}),
+        ("elem", V("opad"), (("range", 0, ("len", P2)), ("BitXor", ("elem", loc("opad")), ("elem", at("p2")))), {}),
         ("call", "Hash::reset", (P1,), {}),
         ("call", "Hash::input", (P1, ("slice", loc("ipad"), ("to", ("getter", "block_len", "p1")))), {}),
         ("call", "Hash::input", (P1, P3), {}),
